@@ -597,6 +597,47 @@ func runC11(r *core.Run) {
 			return core.Outcome{Class: fmt.Sprintf("%s accepted>0=%v", c.Format, pr.accepted > 0), Nontrivial: true}
 		})
 
+	type faLong struct {
+		Len   int `json:"len"`
+		Pos   int `json:"special_pos"`
+		Byte  int `json:"special_byte"`
+		Width int `json:"input_wrap_width"` // 0 = one line
+	}
+	r.Bound("fasta-wrap-fixed-point", "sequences of length 75..165 containing one special byte (blank, ';', '-', '*', '.', 'x', 0x80) at EVERY position, given to the reader unwrapped and wrapped at 60, 79, 80, 81: the accepted record is written (80-column wrapping puts the byte at every position of an output line, incl. first and last) and must read back identically")
+	core.Clause(r, "fasta-wrap-fixed-point", core.Opts{Rule: "accepted FASTA records long enough to be wrapped by the writer are fixed points whatever byte ends or begins an output line; non-trivial = all"},
+		func(emit func(faLong) bool) {
+			for _, l := range []int{75, 79, 80, 81, 82, 159, 160, 161, 165} {
+				for pos := 0; pos < l; pos++ {
+					for _, b := range []int{' ', ';', '-', '*', '.', 'x', 0x80} {
+						for _, w := range []int{0, 60, 79, 80, 81} {
+							if !emit(faLong{l, pos, b, w}) {
+								return
+							}
+						}
+					}
+				}
+			}
+		},
+		func(c faLong) core.Outcome {
+			seq := longSeq(c.Len)
+			seq[c.Pos] = byte(c.Byte)
+			var in bytes.Buffer
+			in.WriteString(">r\n")
+			w := c.Width
+			if w == 0 {
+				w = c.Len
+			}
+			for i := 0; i < len(seq); i += w {
+				in.Write(seq[i:min(i+w, len(seq))])
+				in.WriteString("\n")
+			}
+			pr := runFasta(in.Bytes())
+			if pr.fail != "" {
+				return core.Failf("fasta decoder on a %d-base record with byte %q at position %d (input wrapped at %d): %s", c.Len, byte(c.Byte), c.Pos, c.Width, trunc(pr.fail, 400))
+			}
+			return core.Outcome{Class: fmt.Sprint("accepted=", pr.accepted), Nontrivial: true}
+		})
+
 	// SAM template lines: 11 fields over {"", 0, a} followed by 0..2 tags
 	tagPool := []string{"", "NM:i:0", "XA:Z:", "XB:A:\x80", "XC:A:a", "XF:f:nan", "XH:H:", "XH:H:AB", "XB:B:c,1", "X:i:+1", ":Z:", "XZ:Z:\"", "NM:i:1\tNM:i:2"}
 	r.Bound("sam-templates", fmt.Sprintf("every line of 11 fields each in {'',0,a} (3^11) with no tag, and every such line whose integer fields are all 0 with every 1- and 2-tag suffix from %q", tagPool))
